@@ -153,8 +153,10 @@ func H_C17_Register(shape int) {
 			// excluded (gorm documents "duplicated callback", later handler wins)
 			verifrt.Assume(indexOf(live, op.name) < 0)
 			for j := range ops {
-				// also not a name registered-then-removed earlier (stale entries remain in the list)
-				verifrt.Assume(ops[j].name != op.name)
+				// a name used by an earlier operation may only come back after its Remove
+				if ops[j].kind != 4 {
+					verifrt.Assume(ops[j].name != op.name)
+				}
 			}
 			if kind == 5 {
 				// Before(a built-in callback).After(a user callback, possibly registered later)
@@ -215,6 +217,9 @@ func H_C17_Register(shape int) {
 				live = append(live[:i:i], live[i+1:]...)
 			} else if j := indexOf(live, op.name+"!"); j >= 0 {
 				live = append(live[:j:j], live[j+1:]...)
+			}
+			if indexOf(base, op.name) >= 0 {
+				moved = append(moved, op.name) // a built-in that is removed and registered again has no original position
 			}
 		}
 	}
@@ -308,6 +313,44 @@ func H_C17_Register(shape int) {
 			verifrt.Assert(me < a, "C17.before")
 		} else {
 			verifrt.Assert(me > a, "C17.after")
+		}
+	}
+}
+
+// ---- a second Open that reuses the first handle's Config must not touch the first handle's pipelines
+
+func N_C17_Reopen(tier int) int { return len(c17Pipelines) }
+
+func H_C17_Reopen(shape int) {
+	db1 := openDry(stubDialector{})
+	var log []string
+	mk := func(name string) func(*gorm.DB) {
+		return func(*gorm.DB) { log = append(log, name) }
+	}
+	p := c17Processor(db1, shape)
+	names := gorm.VerifCallbackNames(p)
+	if len(names) == 0 {
+		return
+	}
+	// replace every built-in by a logging handler, remove the first one, add one of our own
+	for _, n := range names {
+		verifrt.Assert(p.Replace(n, mk(n)) == nil, "C17.replace-error")
+	}
+	verifrt.Assert(p.Remove(names[0]) == nil, "C17.remove-error")
+	verifrt.Assert(p.Register("mine", mk("mine")) == nil, "C17.register-error")
+	gorm.VerifRunFns(p, db1)
+	before := append([]string{}, log...)
+	// open a second handle from the first one's configuration
+	db2, err := gorm.Open(stubDialector{}, db1.Config)
+	verifrt.Assert(err == nil && db2 != nil, "C17.reopen-error")
+	log = nil
+	gorm.VerifRunFns(c17Processor(db1, shape), db1)
+	verifrt.Observe("before", before)
+	verifrt.Observe("after", log)
+	verifrt.Assert(len(log) == len(before), "C17.reopen-changed-pipeline")
+	for i := range before {
+		if i < len(log) {
+			verifrt.Assert(log[i] == before[i], "C17.reopen-changed-pipeline")
 		}
 	}
 }
